@@ -208,6 +208,66 @@ func ruleR29_2(c *Check) {
 		return true
 	})
 	r.Check(okDown, lp, "levels visited from the last to L0", nil, "dropPrefixes no longer iterates levels in descending order")
+	// no level is skipped: a `continue` of the level loop is allowed only at the end of the L0 arm and when the
+	// level has no table containing a prefix (decided by looking at the level's tables, not at its number)
+	var levelLoop *ast.ForStmt
+	lp.walk(func(x ast.Node) bool {
+		if fs, ok := x.(*ast.ForStmt); ok && levelLoop == nil && fs.Init != nil && w.mentions(fs.Init, w.Field("badger.levelsController.levels")) {
+			levelLoop = fs
+		}
+		return true
+	})
+	if levelLoop != nil {
+		var kk keyer
+		ast.Inspect(levelLoop.Body, func(x ast.Node) bool {
+			switch y := x.(type) {
+			case *ast.FuncLit:
+				return false
+			case *ast.BranchStmt:
+				if y.Tok != token.CONTINUE && y.Tok != token.BREAK {
+					return true
+				}
+				// belongs to the level loop?
+				for p := w.parentOf(y); p != nil && p != ast.Node(levelLoop); p = w.parentOf(p) {
+					switch p.(type) {
+					case *ast.ForStmt, *ast.RangeStmt:
+						return true
+					case *ast.SwitchStmt, *ast.SelectStmt:
+						if y.Tok == token.BREAK {
+							return true
+						}
+					}
+				}
+				okv := false
+				why := "level loop left by `" + y.Tok.String() + "`"
+				if y.Tok == token.CONTINUE {
+					for _, g := range w.Guards(lp, y) {
+						if g.Implicit || !g.Val {
+							continue
+						}
+						be, isB := g.Cond.(*ast.BinaryExpr)
+						if !isB || be.Op != token.EQL {
+							continue
+						}
+						if v, isC := w.constInt(be.Y); isC && v == 0 {
+							// l.level == 0 (the L0 arm) or len(tableGroups) == 0
+							if w.fieldOf(be.X) == w.Field("badger.levelHandler.level") {
+								okv = true
+							}
+							if call, isCall := unparen(be.X).(*ast.CallExpr); isCall {
+								if id, isID := unparen(call.Fun).(*ast.Ident); isID && id.Name == "len" {
+									okv = true
+								}
+							}
+						}
+					}
+					why = "a level can be skipped for a reason other than 'it is L0 (handled above)' or 'no table of the level contains a prefix'"
+				}
+				r.Check(okv, lp, kk.key("no level is skipped", w, y), y, why)
+			}
+			return true
+		})
+	}
 	// the compactions it runs carry the prefixes
 	dpf := w.Field("badger.compactDef.dropPrefixes")
 	cpf := w.Field("badger.compactionPriority.dropPrefixes")
